@@ -16,7 +16,7 @@ LEVEL = "exploration"
 RULE = ("random consumer sequences (length 1-10, repeated and reordered, producers shared between lists) over pools of finished "
         "results; every built-in command of the CSV and NetCDF library sets is a consumer; distinct by (library set, rank, sequence "
         "of consumer command names up to 4, list arities)")
-REQUIRED_COUNTERS = ["digest_rechecks", "consumer_executions", "results_watched"]
+REQUIRED_COUNTERS = ["digest_rechecks", "consumer_executions", "results_watched", "model_runs"]
 ASSUMPTIONS = ["values stored under the mask are excluded from the digest", "NaN never generated"]
 
 
@@ -31,6 +31,9 @@ def cases(ctx):
         nonfuzzy = [arr.gen_array(rng, shape, rng.choice(arr.DTYPES_Q), distinct2=True, payload=rng.choice(arr.PAYLOADS)) for _ in range(nn)]
         fuzzy = [arr.gen_array(rng, shape, "float64", fuzzy=True, distinct2=True, payload=rng.choice([0.0, 0.5, 1e30])) for _ in range(nf)]
         yield {"libs": libs, "shape": list(shape), "nonfuzzy": nonfuzzy, "fuzzy": fuzzy, "steps": rng.randint(1, 10), "rseed": rng.randrange(10 ** 9)}
+    from mpv import models
+    for i in range(ctx.n(300, 15000)):
+        yield {"kind": "model", "model": models.gen_model(rng, n_ops=rng.randint(2, 12), sinks=True, libs="nc" if i % 3 == 0 else "csv")}
 
 
 _catalog = {}
@@ -63,7 +66,54 @@ def _digests(prog):
     return {name: arr.digest(c._result) for name, c in prog.commands.items() if c.is_finished and isinstance(c._result, numpy.ndarray)}
 
 
+def run_model(ctx, case):
+    """W-MODEL rider: after every execute() exit inside a running model, every finished result is re-digested."""
+    from mpv import models, trace
+    model = case["model"]
+    d = ctx.scratch()
+    try:
+        prog = models.load(model, d)
+    except Exception as e:
+        ctx.dontcare("model does not load: %s" % type(e).__name__)
+        return
+    recorded = {}
+    bad = []
+
+    def on_exit(cmd, value):
+        ctx.count("consumer_executions")
+        for name, dg in recorded.items():
+            ctx.count("digest_rechecks")
+            c = prog.commands[name]
+            if arr.digest(c._result) != dg and not bad:
+                bad.append((type(cmd).__name__, cmd.result_name, name, type(c).__name__))
+        if isinstance(value, numpy.ndarray):
+            recorded[cmd.result_name] = arr.digest(value)
+
+    trace.start(on_exit=on_exit)
+    trace.attach(prog)
+    try:
+        prog.run()
+    except Exception as e:
+        ctx.dontcare("model raises %s" % type(e).__name__)
+    finally:
+        trace.stop()
+    # quiescent point after the run
+    for name, dg in recorded.items():
+        ctx.count("digest_rechecks")
+        if arr.digest(prog.commands[name]._result) != dg and not bad:
+            bad.append(("<end-of-run>", "-", name, type(prog.commands[name]).__name__))
+    ctx.count("results_watched", len(recorded))
+    ctx.count("model_runs")
+    ctx.feature(("model", model.get("libs", "csv"), tuple(sorted(set(c["cmd"] for c in model["commands"])))[:5]))
+    if bad:
+        consumer, cname, victim, vtype = bad[0]
+        text, _ = models.to_text(model)
+        ctx.fail("%s:mutates-input" % consumer, {"in_model": True, "consumer": cname, "mutated_result": victim, "mutated_produced_by": vtype, "text": text[:1500]})
+
+
 def run_case(ctx, case):
+    if case.get("kind") == "model":
+        return run_model(ctx, case)
     import random
     rng = random.Random(case["rseed"])
     libs = case["libs"]
